@@ -11,7 +11,7 @@
    initialisation order otherwise (refuted with a witness; the same program fails on the real
    toolchain: known finding var-init-order).  Everything else (gogen below the builder API, Go
    features outside MiniGo) is explored by building and running both programs. *)
-From Coq Require Import List NArith ZArith Bool.
+From Coq Require Import List NArith ZArith Bool Permutation.
 Import ListNotations.
 From V Require Import Base.Prelude Model.C01 Proofs.C01.
 
@@ -32,6 +32,10 @@ Proof. exact emit_order_id. Qed.
 Theorem C01_emit_order_preserves :
   forall p fuel, no_forward_refs p [] p = true -> run fuel (lower_go (emit_order p)) = run fuel p.
 Proof. intros. rewrite lower_go_preserves. apply emit_order_preserves. assumption. Qed.
+
+(* whatever the references: load-order emission never loses or duplicates a declaration *)
+Theorem C01_emit_order_permutation : forall p, NoDup (var_names p) -> Permutation (emit_order p) p.
+Proof. exact emit_order_perm. Qed.
 
 (* with a forward reference the initialisation order, hence the output, changes *)
 Theorem C01_emit_order_init_refuted :
@@ -72,4 +76,5 @@ Print Assumptions C01_split_fields_same_struct.
 Print Assumptions C01_exec_lower.
 Print Assumptions C01_emit_order_identity.
 Print Assumptions C01_emit_order_preserves.
+Print Assumptions C01_emit_order_permutation.
 Print Assumptions C01_emit_order_init_refuted.
